@@ -126,9 +126,12 @@ def parse_cat(out, ui, cur):
     if title.endswith(" "):
         title = title[:-1]
     title = title.rstrip(" ")
-    dens_text = first[c.end():] if ui != "opus" else second
+    # the density follows the cycle number: on the same line, in the next column or (narrow layouts, Opus) on the next line
+    hdr_end = lines.index("") if "" in lines else 4
+    dens_text = first[c.end():] + " " + " ".join(lines[1:hdr_end])
+    dens_text = dens_text.split("Drive ")[0]
     dens = "MFM" if ("MFM" in dens_text or "Double" in dens_text) else ("FM" if ("FM" in dens_text or "Single" in dens_text) else "?")
-    optline = [x for x in lines[:4] if "Option" in x]
+    optline = [x for x in lines[:(lines.index("") if "" in lines else 4)] if "Option" in x]
     if not optline:
         return None
     m = re.search(r"Option (\d)", optline[0])
